@@ -343,6 +343,24 @@ RemoveStep ==
        /\ pend' = {t \in pend : ~PaysTo(t, {w}) \/ PaysTo(t, {x \in Wallets \ {w} : status[x] # "absent"})}
     /\ UNCHANGED <<chainVars, wchain, wmem, memp, up, cursor, faulted>>
 
+\* A removal is several database commits (the first phase, then the rounds; the last round deletes
+\* the credits, the wallet-status record and the keystore together).  The process may die between
+\* them: the status still says "removing" and a restart takes the removal up again.  k = RemoveCommits
+\* is a crash right after the last commit.
+RemoveCommits == 2
+RemoveStepCrash(k) ==
+    /\ up /\ tasks # <<>> /\ Head(tasks)[1] = "remove"
+    /\ k \in 1..RemoveCommits
+    /\ LET w == Head(tasks)[2] IN
+       IF k < RemoveCommits
+       THEN UNCHANGED <<status, pend>>
+       ELSE /\ status' = [status EXCEPT ![w] = "absent"]
+            /\ pend' = {t \in pend : ~PaysTo(t, {w}) \/ PaysTo(t, {x \in Wallets \ {w} : status[x] # "absent"})}
+    /\ up' = FALSE
+    /\ ntfB' = <<>> /\ ntfT' = <<>> /\ pool' = {}
+    /\ memp' = {} /\ wmem' = 0 /\ tasks' = <<>> /\ faulted' = FALSE /\ reorg' = 0
+    /\ UNCHANGED <<parent, content, best, wchain, cursor>>
+
 (***************************************************************************)
 (* Storage faults (C18).  A storage call of a step fails: the update is    *)
 (* rolled back, so the step has no durable effect.  A block step that      *)
